@@ -8,7 +8,7 @@ use crate::obs::{self, fmt_id, slot_of};
 use crate::ops::guarded;
 use crate::payload::Payload;
 use crate::state::{Issued, State};
-use crate::step::{Failure, C06, C07};
+use crate::step::{Failure, C06, C07, C11};
 use indextree::{Arena, NodeId};
 use rayon::prelude::*;
 use std::collections::HashSet;
@@ -78,6 +78,18 @@ pub fn run_stripe(cycles: usize, stripe: usize, stripes: usize, retire_min: usiz
             if id.is_removed(&arena) {
                 res.failures.push((c, fail(C06, "is_removed", "live-id-reports-removed", format!("cycle {c}: fresh id {} reports is_removed", fmt_id(Some(id))))));
             }
+            // C11: the lookup paths agree for the live node, whatever the generation of its slot
+            {
+                let pos = std::num::NonZeroUsize::new(slot + 1).unwrap();
+                let at = arena.get_node_id_at(pos);
+                let back = arena.get(id).and_then(|n| arena.get_node_id(n));
+                let flag = arena.get(id).map(|n| n.is_removed());
+                if at != Some(id) || back != Some(id) || flag != Some(false) {
+                    res.failures.push((c, fail(C11, "lookup", "lookups-disagree-for-live-node",
+                        format!("cycle {c}: for the live node {}: get_node_id_at(position) = {}, get_node_id(node) = {}, Node::is_removed() = {:?}",
+                            fmt_id(Some(id)), fmt_id(at), fmt_id(back), flag))));
+                }
+            }
             // every earlier id of this stripe must report removed while `id` is live
             let mut k = stripe;
             while k + 1 < res.ids.len() {
@@ -91,6 +103,15 @@ pub fn run_stripe(cycles: usize, stripe: usize, stripes: usize, retire_min: usiz
                 k += stripes;
             }
             id.remove(&mut arena);
+            {
+                let pos = std::num::NonZeroUsize::new(slot + 1).unwrap();
+                let at = arena.get_node_id_at(pos);
+                let flag = arena.as_slice().get(slot).map(|n| n.is_removed());
+                if at.is_some() || flag != Some(true) {
+                    res.failures.push((c, fail(C11, "lookup", "lookups-disagree-for-removed-slot",
+                        format!("after cycle {c}: for the removed slot {}: get_node_id_at(position) = {}, Node::is_removed() = {:?}", slot + 1, fmt_id(at), flag))));
+                }
+            }
             // and all of them, including `id`, after the removal
             let mut k = stripe;
             while k < res.ids.len() {
